@@ -118,10 +118,13 @@ var sizesT = []int{0, 1, 2, 3, 99, 100, 101, 4095, 4096, 4097, 8192, 8193, 12289
 func envConfigs(thorough bool) []EnvCfg {
 	var r []EnvCfg
 	if thorough {
-		for _, ch := range []int{0, 1, 2, 3, 7, 100, 4095, 4096, 4097} {
+		for ci, ch := range []int{0, 1, 2, 3, 7, 100, 4095, 4096, 4097} {
 			for _, wl := range []bool{false, true} {
 				for z := 0; z <= 2; z++ {
 					for e := range termErrs {
+						if e >= 8 && (ci+z+e)%4 != 0 {
+							continue // the two newest error kinds rotate through the product instead of multiplying it
+						}
 						r = append(r, EnvCfg{Chunk: ch, ErrWithLast: wl, ZeroReads: z, Err: e, AfterErr: (e + z) % 2})
 					}
 				}
